@@ -311,6 +311,7 @@ Inductive op :=
   | OpObserve (n : hnode)
   | OpObserveExport (k : nat)                  (* observe exports[k mod len] (a fresh constant if there are none) *)
   | OpMapExport (fid : Z) (k : nat)            (* map over exports[k mod len] (a constant if there are none) *)
+  | OpExportHandle (k : nat)                   (* a program handle on exports[k mod len] itself (a fresh constant if there are none) *)
   | OpCloneObs (o : oid)
   | OpDropObs (o : oid)
   | OpDisallow (o : oid)
@@ -474,6 +475,12 @@ Definition step (fuel : nat) (st : istate) (o : op) : M (istate * out) :=
       s <- get ;;
       mk (match exports s !! (k mod length (exports s))%nat with
           | Some n => create_node (KMap (Clo fid 0 [] false) [n])
+          | None => create_node (KConst (VInt 0))
+          end)
+  | OpExportHandle k =>
+      s <- get ;;
+      mk (match exports s !! (k mod length (exports s))%nat with
+          | Some n => ret n
           | None => create_node (KConst (VInt 0))
           end)
   | OpCloneObs o => upd_obs o (fun ob => ob <| o_handles := S (o_handles ob) |>) ;;; ret (st, OutUnit)
